@@ -26,6 +26,7 @@ package main
 //@ func (*controller).allocateIPs
 //@   requires c != nil && allocator.AllocatorOK(c.ips) && svc != nil && c.ips.allocated[key] == nil && lockstate(c.ips.countersMutex) == 0
 //@   ensures [inv] allocator.Inv(c.ips)
+//@   ensures [unlocked] lockstate(c.ips.countersMutex) == 0 && lockframe(c.ips.countersMutex)
 //@   ensures [others] forall s string :: s != key ==> c.ips.allocated[s] == old(c.ips.allocated[s])
 //@   ensures [refused] result1 != nil ==> result0 == nil && c.ips.allocated[key] == nil
 //@   ensures [recorded] result1 == nil ==> c.ips.allocated[key] != nil && sameSlice(c.ips.allocated[key].ips, result0)
@@ -51,6 +52,7 @@ package main
 //@   ensures [released] svcRo == nil && old(c.ips.allocated[name] != nil && c.ips.allocated[name].pool != "") ==> result == controllers.SyncStateReprocessAll && c.ips.allocated[name] == nil
 //@   ensures [releasedOthers] svcRo == nil ==> (forall s string :: s != name ==> c.ips.allocated[s] == old(c.ips.allocated[s])) && allocator.Inv(c.ips)
 //@   ensures [nothingToDo] svcRo == nil && !old(c.ips.allocated[name] != nil && c.ips.allocated[name].pool != "") ==> result == controllers.SyncStateSuccess && (forall s string :: c.ips.allocated[s] == old(c.ips.allocated[s]))
+//@   assert before UpdateStatus: [writesConverged] arg0 == svc
 //@   ensures [noConfig] svcRo != nil && old(c.pools == nil || c.pools.ByName == nil) ==> result == controllers.SyncStateSuccess && (forall s string :: c.ips.allocated[s] == old(c.ips.allocated[s]))
 
 // SetPools (controller): a usable configuration is handed to the allocator (which keeps every still admissible
@@ -89,12 +91,39 @@ package main
 //@   ensures [distinct] old(allocator.InvD(c.ips)) ==> allocator.InvD(c.ips)
 //@   modifies map[string]*allocator.alloc, map[allocator.Port]string, map[string]bool, map[string]int, map[string]allocator.PoolCounters, map(svc.Annotations), svc.Status.LoadBalancer.Ingress, fresh *ipaddr.Prefix, fresh *ipaddr.Cursor, fresh *ipaddr.Position, fresh []ipaddr.Prefix, gint("cursor.pos"), fresh []string, fresh []interface{}, $held
 
-// convergeBalancer is not verified (an attempt in abstracted mode left dozens of obligations undischarged: the
-// function re-sorts the recorded address list in place through isEqualIPs, which the allocator invariant's predicates
-// do not survive symbolically): only its frame and that it leaves the counters lock free are assumed where
-// SetBalancer calls it.
+// convergeBalancer, checked in abstracted mode (preconditions of callees other than lock requirements are not
+// re-established: the function re-sorts the recorded address list in place through isEqualIPs, which the allocator
+// invariant's opaque predicates do not survive symbolically). What is proved: what the function leaves in the
+// Service (status, pool annotation) is what the allocator has on record for it.
 //@ func (*controller).convergeBalancer
-//@   trusted
-//@   requires c != nil && svc != nil
+//@   abstract
+//@   requires c != nil && svc != nil && c.ips != nil && c.ips.allocated != nil && lockstate(c.ips.countersMutex) == 0
+//@   requires [errVar] ErrConverge != nil
 //@   ensures lockstate(c.ips.countersMutex) == 0 && lockframe(c.ips.countersMutex)
+//@   ensures [notLB] svc.Spec.Type != v1.ServiceTypeLoadBalancer ==> result == nil && c.ips.allocated[key] == nil && len(svc.Status.LoadBalancer.Ingress) == 0
+//@   ensures [recorded] result == nil && svc.Spec.Type == v1.ServiceTypeLoadBalancer ==> c.ips.allocated[key] != nil
+//@   ensures [statusLen] result == nil && svc.Spec.Type == v1.ServiceTypeLoadBalancer ==> len(svc.Status.LoadBalancer.Ingress) == len(c.ips.allocated[key].ips) && len(svc.Status.LoadBalancer.Ingress) > 0
+//@   ensures [statusIsRecord] result == nil && svc.Spec.Type == v1.ServiceTypeLoadBalancer ==> (forall i int :: 0 <= i && i < len(svc.Status.LoadBalancer.Ingress) ==> svc.Status.LoadBalancer.Ingress[i].IP == net.ipstr(c.ips.allocated[key].ips[i]))
+//@   ensures [annotation] result == nil && svc.Spec.Type == v1.ServiceTypeLoadBalancer ==> (AnnotationIPAllocateFromPool in svc.Annotations) && svc.Annotations[AnnotationIPAllocateFromPool] == c.ips.allocated[key].pool
+//@   ensures [others] forall s string :: s != key ==> c.ips.allocated[s] == old(c.ips.allocated[s])
+//@   assert after Assign#1: [rec1] ret == nil ==> c.ips.allocated[key] != nil && sameSlice(c.ips.allocated[key].ips, lbIPs)
+//@   assert before isEqualIPs#1: [rec2] len(lbIPs) != 0 ==> c.ips.allocated[key] != nil && sameSlice(c.ips.allocated[key].ips, lbIPs)
+//@   assert after isEqualIPs#1: [rec3] len(lbIPs) != 0 ==> c.ips.allocated[key] != nil && sameSlice(c.ips.allocated[key].ips, lbIPs)
+//@   assert before AllocateFromPoolForAdditionalFamily#1: [rec4] c.ips.allocated[key] != nil && sameSlice(c.ips.allocated[key].ips, lbIPs)
+//@   assert after AllocateFromPoolForAdditionalFamily#1: [rec5] ret1 == nil ==> c.ips.allocated[key] != nil && len(c.ips.allocated[key].ips) == 2 && sameSlice(c.ips.allocated[key].ips[0], lbIPs[0]) && sameSlice(c.ips.allocated[key].ips[1], ret0)
+//@   assert after AllocateFromPoolForAdditionalFamily#1: [rec6] ret1 != nil ==> c.ips.allocated[key] != nil && sameSlice(c.ips.allocated[key].ips, lbIPs)
+//@   assert after AllocateFromPoolForAdditionalFamily#1: [rec5f] ret1 == nil ==> fresh(c.ips.allocated[key].ips) && len(lbIPs) == 1
+//@   assert after append#2: [rec9] c.ips.allocated[key] != nil && len(c.ips.allocated[key].ips) == 2 && len(ret) == 2 && sameSlice(c.ips.allocated[key].ips[0], ret[0]) && sameSlice(c.ips.allocated[key].ips[1], ret[1])
+//@   assert before allocateIPs#1: [cleared] c.ips.allocated[key] == nil
+//@   assert after allocateIPs#1: [rec7] ret1 == nil ==> c.ips.allocated[key] != nil && sameSlice(c.ips.allocated[key].ips, ret0)
+//@   assert before Pool#3: [rec8] c.ips.allocated[key] != nil && len(c.ips.allocated[key].ips) == len(lbIPs) && (forall j int :: 0 <= j && j < len(lbIPs) ==> sameSlice(c.ips.allocated[key].ips[j], lbIPs[j]))
+//@   loop 1 binds i
+//@   loop 1 invariant lbIPs != nil && fresh(lbIPs) && lockstate(c.ips.countersMutex) == 0
+//@   loop 1 invariant forall s string :: c.ips.allocated[s] == old(c.ips.allocated[s])
+//@   loop 2 binds lbIP
+//@   loop 2 invariant lbIngressIPs != nil && fresh(lbIngressIPs) && len(lbIngressIPs) == iter && lockstate(c.ips.countersMutex) == 0
+//@   loop 2 invariant forall j int :: 0 <= j && j < iter ==> lbIngressIPs[j].IP == net.ipstr(lbIPs[j])
+//@   loop 2 invariant c.ips.allocated[key] != nil && len(c.ips.allocated[key].ips) == len(lbIPs) && (forall j int :: 0 <= j && j < len(lbIPs) ==> sameSlice(c.ips.allocated[key].ips[j], lbIPs[j]))
+//@   loop 2 invariant forall s string :: s != key ==> c.ips.allocated[s] == old(c.ips.allocated[s])
+//@   loop 2 invariant pool == c.ips.allocated[key].pool
 //@   modifies map[string]*allocator.alloc, map[allocator.Port]string, map[string]bool, map[string]int, map[string]allocator.PoolCounters, map[string]string, v1.LoadBalancerStatus.Ingress, k8s.io/apimachinery/pkg/apis/meta/v1.ObjectMeta.Annotations, fresh *ipaddr.Prefix, fresh *ipaddr.Cursor, fresh *ipaddr.Position, fresh []ipaddr.Prefix, gint("cursor.pos"), fresh []string, fresh []interface{}, fresh *allocator.alloc, fresh []allocator.Port, fresh *allocator.key, fresh *allocator.Allocation, fresh []net.IP, fresh []*config.Pool, fresh []v1.LoadBalancerIngress, []net.IP, $held
